@@ -1502,7 +1502,7 @@ fn assemble(kind: Kind, max_alloc: usize, r: RawGraph) -> Case {
     normalise(Case { kind, nodes, leaves, root_wrapped: r.root_wrapped, opts: r.opts, strip: r.strip })
 }
 
-fn random_graph(kind: Kind, p_share: f64, max_alloc: usize, max_strong: usize, max_weak: usize, strip: bool) -> impl Strategy<Value = Case> {
+fn random_graph(kind: Kind, p_share: f64, max_alloc: usize, max_strong: usize, max_weak: usize, strip: bool) -> impl Strategy<Value = Case> + Clone + use<> {
     (
         prop::collection::vec(
             (any::<u16>(), any::<u16>(), prop::bool::weighted(p_share.clamp(0.001, 0.999)), 0u8..3, 0u32..4),
@@ -1730,11 +1730,12 @@ impl Property for C14 {
     }
     fn generate(ctx: &mut Ctx<Self>) {
         let thorough = ctx.tier == Tier::Thorough;
-        let stats: RefCell<BTreeMap<String, u64>> = RefCell::new(BTreeMap::new());
-        let note = |c: &Case| -> bool {
+        let stats: std::rc::Rc<RefCell<BTreeMap<String, u64>>> = std::rc::Rc::new(RefCell::new(BTreeMap::new()));
+        let stats2 = stats.clone();
+        let note = move |c: &Case| -> bool {
             match simulate(c) {
                 Ok(m) => {
-                    let mut s = stats.borrow_mut();
+                    let mut s = stats2.borrow_mut();
                     for f in features(c, &m) {
                         *s.entry(f).or_insert(0) += 1;
                     }
@@ -1917,37 +1918,37 @@ impl Property for C14 {
         for &p in &[0.0, 0.1, 0.25, 0.5, 0.75, 1.0] {
             for kind in [Kind::RcDag, Kind::ArcDag] {
                 let s = random_graph(kind, p, 10, 25, 8, false);
-                ctx.run_strategy(&format!("random-dag-share-{p}"), stream, n, &s, &note);
+                ctx.run_strategy(&format!("random-dag-share-{p}"), stream, n, &s, note.clone());
                 stream += 1;
             }
             for kind in [Kind::RcRec, Kind::ArcRec] {
                 let s = random_graph(kind, p, 10, 25, 10, false);
-                ctx.run_strategy(&format!("random-rec-share-{p}"), stream, n, &s, &note);
+                ctx.run_strategy(&format!("random-rec-share-{p}"), stream, n, &s, note.clone());
                 stream += 1;
             }
         }
         // deep chains / wide fans: small allocation count, many occurrences
         for kind in [Kind::RcDag, Kind::ArcDag, Kind::RcRec, Kind::ArcRec] {
             let s = random_graph(kind, 0.9, 4, 25, 6, false);
-            ctx.run_strategy("random-dense-few-allocations", stream, n, &s, &note);
+            ctx.run_strategy("random-dense-few-allocations", stream, n, &s, note.clone());
             stream += 1;
         }
         // the text as a person would write it: anchors only where an alias refers to them
         for kind in [Kind::RcDag, Kind::ArcDag, Kind::RcRec, Kind::ArcRec] {
             for &p in &[0.1, 0.6] {
                 let s = random_graph(kind, p, 8, 16, 6, true);
-                ctx.run_strategy("random-minimal-anchors", stream, n, &s, &note);
+                ctx.run_strategy("random-minimal-anchors", stream, n, &s, note.clone());
                 stream += 1;
             }
         }
         if thorough {
             for kind in [Kind::RcDag, Kind::ArcDag, Kind::RcRec, Kind::ArcRec] {
                 let s = random_graph(kind, 0.5, 24, 60, 20, false);
-                ctx.run_strategy("random-large", stream, 8_000, &s, &note);
+                ctx.run_strategy("random-large", stream, 8_000, &s, note.clone());
                 stream += 1;
             }
         }
-        for (k, v) in stats.into_inner() {
+        for (k, v) in stats.take() {
             ctx.class_n(&k, v);
         }
     }
@@ -1955,4 +1956,10 @@ impl Property for C14 {
 
 fn main() {
     engine::main::<C14>()
+}
+
+/// entry point of the libFuzzer target `fuzz/fuzz_targets/c14.rs`
+#[allow(dead_code)]
+pub fn fuzz(data: &[u8]) {
+    engine::fuzz_one::<C14>(data)
 }
